@@ -88,6 +88,30 @@ func genMsgs(t *rapid.T, label string, maxCount, maxLen int, gaps []int) []vnet.
 	return msgs
 }
 
+// drawSlowReaders gives the scenario, in one of four cases, a receiving
+// application that stays out of Recv for a while (base = the unit of the
+// pauses, usually the larger resend timeout) on one or both directions.
+func drawSlowReaders(t *rapid.T, sc *vnet.Scenario, base int) {
+	if rapid.IntRange(0, 3).Draw(t, "slow_reader") != 0 {
+		return
+	}
+	mk := func(label string) *vnet.SlowRecv {
+		return &vnet.SlowRecv{
+			StartMs: rapid.SampledFrom([]int{0, base / 2, 2 * base, 5 * base}).Draw(t, label+"_start"),
+			EveryN:  rapid.SampledFrom([]int{1, 2, sc.N, sc.N + 1, 3 * sc.N}).Draw(t, label+"_every"),
+			PauseMs: rapid.SampledFrom([]int{0, 1, base, 3 * base}).Draw(t, label+"_pause"),
+		}
+	}
+	switch rapid.IntRange(0, 2).Draw(t, "slow_dir") {
+	case 0:
+		sc.SlowRecvC2S = mk("slow_c2s")
+	case 1:
+		sc.SlowRecvS2C = mk("slow_s2c")
+	default:
+		sc.SlowRecvC2S, sc.SlowRecvS2C = mk("slow_c2s"), mk("slow_s2c")
+	}
+}
+
 // ---------- trace analysis ----------
 
 type dirTrace struct {
